@@ -18,16 +18,16 @@ const (
 func init() {
 	Register(&Prop{ID: "C30", Title: "ICS-20 conserves tokens across chains",
 		Technique: "abstract interpretation (go/ssa): exhaustive bank-effect table of every ICS-20 handler on its success returns (which bank calls, with which accounts, coins and guards — and no others), symmetry of the send and refund tables under the same source/sink predicate, argument binding from the v1 and v2 module callbacks into the keeper, who-may-call table of the bank's mutating methods inside the transfer module",
-		LevelText: "Decides the local clauses from which conservation follows by induction over packet lifecycles (given exactly-once delivery, C01–C11): on success SendTransfer performs exactly {module-transfer+burn of the sent coin} when the denom is prefixed by the sending channel and exactly {move of the sent coin from the sender to that channel's escrow account (tracked)} otherwise; OnRecvPacket performs exactly {release of amount×(denom minus its first hop) from the receiving channel's escrow to the receiver} when the denom is prefixed by the packet's source channel and exactly {mint of amount×(denom plus the receiving hop) and its transfer from the module to the receiver} otherwise; a refund performs exactly the inverse of the send for the same predicate, coin and sender; a success acknowledgement performs no bank call; the v1 and v2 callbacks pass the packet's own port/channel identifiers and the token decoded from the packet; and no other function of the transfer module calls a balance-changing bank method. Does not decide the global invariant over interleavings itself, nor bank-module behaviour.",
-		Note:      "go/types + go/ssa; x/bank trusted", Design: "§5 C30", Run: runC30})
+		LevelText: "Decides the local clauses from which conservation follows by induction over packet lifecycles (given exactly-once delivery, C01–C11): on success SendTransfer performs exactly {module-transfer+burn of the sent coin} when the denom is prefixed by the sending channel and exactly {move of the sent coin from the sender to that channel's escrow account (tracked)} otherwise; OnRecvPacket performs exactly {release of amount×(denom minus its first hop) from the receiving channel's escrow to the receiver} when the denom is prefixed by the packet's source channel and exactly {mint of amount×(denom plus the receiving hop) and its transfer from the module to the receiver} otherwise; a refund performs exactly the inverse of the send for the same predicate, coin and sender; a success acknowledgement performs no bank call; the v1 and v2 callbacks pass the packet's own port/channel identifiers and the token decoded from the packet; and no other function of the transfer module calls a balance-changing bank method. Does not decide the global invariant over interleavings itself, nor bank-module behaviour. The check additionally re-runs the rules of the packet-lifecycle properties conservation rests on (C01, C03, C04, C05, C06, C09, C10, C11: a packet delivered twice, both received and timed out, acknowledged without proof, or whose failed receive keeps state, breaks conservation).",
+		Note:      "go/types + go/ssa; x/bank trusted", Design: "§5 C30", Run: runC30, Deps: []string{"C01", "C03", "C04", "C05", "C06", "C09", "C10", "C11"}})
 	Register(&Prop{ID: "C31", Title: "Tracked total escrow equals net IBC escrow movements",
 		Technique: "abstract interpretation (go/ssa): pairing of every bank move into/out of an escrow account with the total-escrow update by the same coin, who-may-call and store-writer tables for the total-escrow key, non-negativity guard of the setter",
 		LevelText: "Decides that EscrowCoin/UnescrowCoin succeed only after the bank move between the given account and the escrow account succeeded and then store total±coin for the coin's denom; that every bank move whose source or destination is an escrow address happens inside one of these two functions (transfer module) or is paired with the same adjustment (packet-forward middleware); that only SetTotalEscrowForDenom writes the total-escrow key, that it refuses negative amounts by panicking and deletes the key for zero; and that it is called only by the escrow functions, genesis, the packet-forward middleware and migrations. Does not decide the inequality with the actual escrow balances over all histories (needs C30's induction).",
 		Note:      "go/types + go/ssa; x/bank trusted", Design: "§5 C31", Run: runC31})
 	Register(&Prop{ID: "C32", Title: "Failed transfers refund exactly the sent amount, exactly once",
 		Technique: "abstract interpretation (go/ssa): refund effect table bound to the packet's own sender, denomination and amount; acknowledgement dispatch (success: no bank call; error: refund; v2: sentinel error or well-formed success only); timeout dispatch",
-		LevelText: "Decides that a refund's only bank effects are, for the coin decoded from the packet's own token and the packet's own sender, either mint+module-to-sender (denom prefixed by the source channel: it was burnt on send) or escrow-to-sender from the source channel's escrow (it was escrowed on send), selected by the same predicate as the send; that acknowledgement handling refunds exactly when the acknowledgement is the error variant (v2: exactly when the bytes are the error sentinel; any other v2 acknowledgement must re-marshal to the same bytes and be a success) and performs no bank call for a success; and that timeouts go to the same refund with the packet's source port/channel. Exactly-once follows from the packet lifecycle properties (C03, C05) and is not re-decided here.",
-		Note:      "go/types + go/ssa", Design: "§5 C32", Run: runC32})
+		LevelText: "Decides that a refund's only bank effects are, for the coin decoded from the packet's own token and the packet's own sender, either mint+module-to-sender (denom prefixed by the source channel: it was burnt on send) or escrow-to-sender from the source channel's escrow (it was escrowed on send), selected by the same predicate as the send; that acknowledgement handling refunds exactly when the acknowledgement is the error variant (v2: exactly when the bytes are the error sentinel; any other v2 acknowledgement must re-marshal to the same bytes and be a success) and performs no bank call for a success; and that timeouts go to the same refund with the packet's source port/channel. Also decides that core hands acknowledgements and timeouts (v1 timeout, timeout-on-close, v2) to the application on the message's own context, so the refund is kept with the transaction that deletes the commitment. Exactly-once follows from the packet lifecycle properties (C03, C06), whose rules the check re-runs.",
+		Note:      "go/types + go/ssa", Design: "§5 C32", Run: runC32, Deps: []string{"C03", "C06"}})
 }
 
 // effectCase is one admissible set of balance-changing bank calls on a success return.
@@ -460,6 +460,13 @@ func runC31(c *Ctx) {
 			"apps/packet-forward-middleware/keeper.Keeper.WriteAcknowledgementForForwardedPacket", "apps/packet-forward-middleware/keeper.Keeper.unescrowToken", "apps/packet-forward-middleware/keeper.Keeper.moveEscrowToken",
 		}, Min: 2},
 	})
+	// the packet-forward middleware moves coins in and out of escrow accounts itself when it refunds a failed
+	// forward: each of its cases must adjust the tracked total by exactly the coin that is burned from / minted into
+	// an escrow account (and leave it alone for the escrow→escrow move)
+	old := e.Seams
+	pfmSeams(e)
+	pfmAckTable(c, e, "C31/pfm-refund")
+	e.Seams = old
 }
 
 func runC32(c *Ctx) {
@@ -470,21 +477,33 @@ func runC32(c *Ctx) {
 	}
 	c.ics20RefundTable(which, "C32")
 	c.ics20Dispatch(which, "C32")
+	// core hands the acknowledgement / timeout to the application on the message's own context (the one whose
+	// writes are kept with the transaction, and on which the commitment was deleted) — a callback run on a branch
+	// that is never written back would lose the refund while the commitment is gone for good
+	for _, x := range []struct{ entry, seam, name string }{
+		{entryAck1, seamAck1, "ack-v1"}, {entryTimeout1, seamTimeout1, "timeout-v1"}, {entryTimeoutC1, seamTimeout1, "timeout-on-close-v1"},
+		{entryAck2, seamAck2, "ack-v2"}, {entryTimeout2, seamTimeout2, "timeout-v2"},
+	} {
+		if rr := c.Run(which, x.entry); rr != nil {
+			c.Check(which, "C32/core/"+x.name, c.Calls(rr, x.seam), 1, pktMacros, nil,
+				Req{Name: "callback-on-the-kept-context", Args: map[int]string{1: "$ECTX"}})
+		}
+	}
 	// v1 module: the acknowledgement is decoded from the bytes, the data from the packet
 	if rr := c.Run(which, "apps/transfer.IBCModule.OnAcknowledgementPacket"); rr != nil {
 		c.Check(which, "C32/v1/ack", c.Calls(rr, xfer+".OnAcknowledgementPacket"), 1, nil, nil,
-			Req{Name: "decoded-ack-and-own-packet", Args: map[int]string{2: "field:SourcePort(param#3)", 3: "field:SourceChannel(param#3)", 5: "~or(esc#*, addr#*, deref(_))"},
+			Req{Name: "decoded-ack-and-own-packet", Args: map[int]string{1: "param#1", 2: "field:SourcePort(param#3)", 3: "field:SourceChannel(param#3)", 5: "~or(esc#*, addr#*, deref(_))"},
 				Any: all("ok(call:codec.ProtoCodec.UnmarshalJSON(_, param#4, _))")})
 	}
 	if rr := c.Run(which, "apps/transfer.IBCModule.OnTimeoutPacket"); rr != nil {
 		c.Check(which, "C32/v1/timeout", c.Calls(rr, xfer+".OnTimeoutPacket"), 1, nil, nil,
-			Req{Name: "own-packet", Args: map[int]string{2: "field:SourcePort(param#3)", 3: "field:SourceChannel(param#3)"}})
+			Req{Name: "own-packet", Args: map[int]string{1: "param#1", 2: "field:SourcePort(param#3)", 3: "field:SourceChannel(param#3)"}})
 	}
 	// v2: sentinel => error ack; anything else must round-trip and be a success
 	if rr := c.Run(which, "apps/transfer/v2.IBCModule.OnAcknowledgementPacket"); rr != nil {
 		sentinel := "call:bytes.Equal(param#5, gaddr:core/04-channel/v2/types.ErrorAcknowledgement)"
 		c.Check(which, "C32/v2/ack", c.Calls(rr, xfer+".OnAcknowledgementPacket"), 1, nil, nil,
-			Req{Name: "error-iff-sentinel-else-wellformed-success", Args: map[int]string{5: "?ack"}, Any: [][]string{
+			Req{Name: "error-iff-sentinel-else-wellformed-success", Args: map[int]string{1: "param#1", 5: "?ack"}, Any: [][]string{
 				{"T(" + sentinel + ")", "~is(?ack, call:core/04-channel/types.NewErrorAcknowledgement(_))"},
 				{"F(" + sentinel + ")", "ok(call:codec.ProtoCodec.UnmarshalJSON(_, param#5, _))", "T(call:core/04-channel/types.Acknowledgement.Success(?ack))",
 					"T(call:bytes.Equal(call:codec.ProtoCodec.MustMarshalJSON(_, ref(?ack)), param#5))"},
